@@ -272,7 +272,6 @@ func VP_C20_dirent_long_name() {
 	nl := int(b[6])
 	vp.Assume(nl >= 200)
 	vp.Unwind(10)
-	vp.KnownPanic("KF-C20-6", "ext4.directoryEntryFromBytes)") // name_len >= 248: 0x8+nameLength wraps in uint8
 	vp.NoPanic()
 	ents, err := parseDirEntriesLinear(b, false, 264, 2, 0, 0)
 	vp.AllowPanic()
